@@ -6,6 +6,7 @@ import (
 	"io"
 	"os"
 	"testing"
+	"time"
 
 	"github.com/llir/llvm/asm"
 	"github.com/llir/llvm/ir"
@@ -59,7 +60,7 @@ type Step struct {
 }
 
 var editOps = []string{"addGlobal", "addFunc", "addBlock", "appendInst", "appendInst", "appendInst", "insertInst", "insertInst", "removeInst", "replaceInst", "replaceInst", "bulkAppend", "replaceTerm", "rename", "renameGlobal", "renameBlock", "addMetadata", "setAddrSpace", "takeBlockAddress"}
-var observeOps = []string{"obsString", "obsString", "obsWriteTo", "obsFailingWrite", "obsPanickingPrint", "obsFunc", "obsBlock", "obsInst", "obsType", "obsIdent", "obsOperands", "obsSuccs", "obsInitializer"}
+var observeOps = []string{"obsString", "obsString", "obsWriteTo", "obsFailingWrite", "obsPanickingPrint", "obsFunc", "obsBlock", "obsInst", "obsType", "obsIdent", "obsOperands", "obsSuccs", "obsInitializer", "obsFailedCalls"}
 
 // world is the state built by replaying a history.
 type world struct {
@@ -492,6 +493,49 @@ func (w *world) apply(s Step, observe bool) (printed string, isPrint bool) {
 			lx.Guard(func() { _ = m.String() })
 			lx.Guard(func() { _ = f.LLString() })
 			b.Term = term
+			// the failed print must have let go of everything it held: a print of the repaired state returns
+			// (the only use of the clock in this check: a hang detector with a bound no print comes near)
+			done := make(chan struct{})
+			go func() {
+				defer close(done)
+				lx.Guard(func() { _ = f.LLString(); _ = m.String() })
+			}()
+			select {
+			case <-done:
+			case <-time.After(120 * time.Second):
+				panic(fmt.Errorf("a print after a recovered panic of an earlier print does not return within 120 s (a lock that the failed print took is still held?)"))
+			}
+		}
+	case "obsFailedCalls":
+		// calls that fail and change nothing: constructors that reject ill-typed operands of the module (the
+		// caller recovers), literals that do not parse, a parse of a rejected text, the documented error of
+		// Func.AssignIDs on a function whose stored IDs are out of date is *not* among them (it writes IDs)
+		var anyVal value.Value = constant.NewInt(types.I64, int64(s.A))
+		if f := w.fn(s.A); f != nil && len(f.Params) > 0 {
+			anyVal = f.Params[0]
+		}
+		var ptr value.Value = constant.NewNull(types.NewPointer(types.I8))
+		if len(m.Globals) > 0 {
+			ptr = m.Globals[pick(len(m.Globals), s.B)]
+		}
+		switch s.C % 6 {
+		case 0:
+			lx.Guard(func() { ir.NewStore(constant.NewInt(types.I64, 1), ptr) }) // i64 into an i32 or i8 cell
+		case 1:
+			lx.Guard(func() { ir.NewTrunc(anyVal, types.NewInt(128)) })
+		case 2:
+			lx.Guard(func() {
+				ir.NewExtractValue(constant.NewStruct(types.NewStruct(types.I32), constant.NewInt(types.I32, 1)), 7)
+			})
+		case 3:
+			lx.Guard(func() { constant.NewIntFromString(types.I32, "12x") })
+			lx.Guard(func() { constant.NewFloatFromString(types.Float, "0xZZ") })
+		case 4:
+			lx.Guard(func() {
+				asm.ParseString("failing", "@a = global i32 1\ndefine void @f(i32) {\n  %v = load i32, i32* @a\n  br label %nowhere\n}\n")
+			})
+		default:
+			lx.Guard(func() { ir.NewLoad(types.I64, anyVal) }) // a load from something that is not a pointer
 		}
 	case "obsInitializer":
 		// type, identifier and string of the initialiser of a global variable
